@@ -2,7 +2,7 @@
    (Memory safety and normal termination of the real process are the runtime half: ASan build, see the check.) *)
 From Coq Require Import List NArith ZArith Lia Bool.
 From Coq Require Import Strings.Byte.
-Require Import Bytes Codes Local6531 Utf8Spec Cli CliProofs Special.
+Require Import Bytes Codes Local6531 Utf8Spec Cli CliProofs Special CliA.
 Import ListNotations.
 From Coq Require Strings.String.
 Import Strings.String.StringSyntax.
@@ -37,6 +37,14 @@ Theorem C20_echo_buffer_suffices :
   forall l, (length (sanitize l) + 1 <= length l * 4 + 1)%nat.
 Proof. exact sanitize_fits. Qed.
 Print Assumptions C20_echo_buffer_suffices.
+
+(* the line handling of parse_file over the buffer getline() filled (read >= 1 bytes + terminator, NULs allowed inside):
+   line[read - 2], line[read - 1], line[0], strlen, cp[len - 1] and the NUL stores never leave the buffer, and what is handed to
+   eav_is_email — pointer line + cp with cp <= 1, length len, the C string found there — is exactly trim_line's answer *)
+Theorem C20_line_handling_access_model :
+  forall ln, ln <> [] -> agrees (trimT (ln ++ [NUL]) (length ln)) (trim_line ln) (S (length ln)).
+Proof. exact trimT_refines. Qed.
+Print Assumptions C20_line_handling_access_model.
 
 Example C20_example :
   file_lines (bs "a@b.c" ++ [x0d; x0a] ++ bs "#x" ++ [x0a; x0a] ++ bs " y ") = [bs "a@b.c" ++ [x0d; x0a]; bs "#x" ++ [x0a]; [x0a]; bs " y "] /\
